@@ -362,25 +362,25 @@ Proof.
 Qed.
 
 (* ---------- union / intersect on map[T]struct{} sets (Go's == on keys) ---------- *)
-Theorem union_map_m_spec ord l kvs that ks2 : (forall ks, Permutation (ord ks) ks) ->
-  map_keys that = Some ks2 -> Forall keyable (map fst kvs) -> Forall keyable ks2 -> pw_ne go_eqeq (map fst kvs) ->
-  exists K, union_map_m ord (VMap l kvs) that = Ok (VMap l (unit_entries K))
+Definition map_label (m : val) : N := match m with VMap l _ => l | _ => fl end.
+Theorem union_map_m_spec ord this that ks1 ks2 : (forall ks, Permutation (ord ks) ks) ->
+  map_keys this = Some ks1 -> map_keys that = Some ks2 ->
+  Forall keyable ks1 -> Forall keyable ks2 -> pw_ne go_eqeq ks1 ->
+  exists K, union_map_m fl ord this that = Ok (VMap (map_label this) (unit_entries K))
     /\ pw_ne go_eqeq K
-    /\ (forall z, keyable z -> mem go_eqeq z K = mem go_eqeq z (map fst kvs) || mem go_eqeq z ks2).
+    /\ (forall z, keyable z -> mem go_eqeq z K = mem go_eqeq z ks1 || mem go_eqeq z ks2).
 Proof.
-  intros Hord E2 K1 K2 P1. set (ks1 := map fst kvs) in *.
-  exists (ks1 ++ dedup go_eqeq ks1 (ord ks2)). unfold union_map_m. rewrite E2. fold ks1. rewrite fold_insert.
-  split; [reflexivity|]. split; [apply pw_ne_app_dedup; exact P1|].
-  intros z Hz.
-  assert (K2' : Forall keyable (ord ks2)).
-  { rewrite Forall_forall in *. intros y Hy. apply K2. eapply Permutation_in; [apply Hord| exact Hy]. }
-  rewrite (mem_dedup go_eqeq keyable eqeq_trans_k (ord ks2) ks1 z K1 K2' Hz).
-  rewrite (mem_perm go_eqeq z (ord ks2) ks2 (Hord ks2)). reflexivity.
+  intros Hord E1 E2 K1 K2 P1.
+  exists (ks1 ++ dedup go_eqeq ks1 (ord ks2)). split.
+  - unfold union_map_m. rewrite E2. destruct this; try discriminate; cbn in E1; inversion E1; subst ks1;
+      cbn [map_label]; rewrite fold_insert; reflexivity.
+  - split; [apply pw_ne_app_dedup; exact P1|].
+    intros z Hz.
+    assert (K2' : Forall keyable (ord ks2)).
+    { rewrite Forall_forall in *. intros y Hy. apply K2. eapply Permutation_in; [apply Hord| exact Hy]. }
+    rewrite (mem_dedup go_eqeq keyable eqeq_trans_k (ord ks2) ks1 z K1 K2' Hz).
+    rewrite (mem_perm go_eqeq z (ord ks2) ks2 (Hord ks2)). reflexivity.
 Qed.
-(* writing into a nil map panics *)
-Lemma union_map_nil ord k ks l : union_map_m ord VNilM (VMap l (unit_entries (k :: ks))) = Pan
-  /\ union_map_m ord VNilM VNilM = Ok VNilM /\ union_map_m ord VNilM (VMap l []) = Ok VNilM.
-Proof. repeat split; reflexivity. Qed.
 
 Lemma fold_cond_insert (c : val -> bool) l : forall m,
   fold_left (fun m k => if c k then map_insert m k else m) l m = m ++ dedup go_eqeq m (filter c l).
